@@ -11,6 +11,10 @@
 EXTENDS Naturals, Sequences, FiniteSets, TLC, Json, IOUtils
 CONSTANTS Export, MaxMut
 MsgMut  == {"seq", "mtype", "method", "status", "metaadd", "metaset", "body", "newbody", "codec", "pipe", "ctx", "size"}
+\* the previous user obtained its message with GetMessage(settings...): the settings are applied in order; "badpipe" is a
+\* setting that panics (WithXferPipe with an unregistered filter id, documented to panic; Session.Push / Call recover
+\* from it and report Bad Message) -- whatever the settings before it did must not reach the next user of the pool
+GetSet  == {"setmeta", "method", "body", "status", "pipeg", "badpipe"}
 ArgsMut == {"add", "addempty", "set", "parse", "parsebare", "del"}
 \* "concclose": the previous user closes the socket from two goroutines at the same moment (a reader that
 \* gives up on an error while the owner shuts down): the socket must return to the pool once
@@ -22,6 +26,7 @@ CtxFeat == {"meta", "pipe", "codec", "outmeta", "outcodec", "swap", "status", "c
 Seqs(S, n) == UNION {[1..k -> S] : k \in 0..n}
 Cases ==
        {[fam |-> "pool", kind |-> "message", muts |-> q, next |-> nx, expect |-> "fresh"] : q \in Seqs(MsgMut, MaxMut), nx \in {"observe", "pack"}}
+  \cup {[fam |-> "pool", kind |-> "getmessage", muts |-> q, next |-> nx, expect |-> "fresh"] : q \in Seqs(GetSet, 3), nx \in {"observe", "pack"}}
   \cup {[fam |-> "pool", kind |-> "args", muts |-> q, next |-> nx, expect |-> "fresh"] : q \in Seqs(ArgsMut, MaxMut), nx \in {"observe", "parsebare", "add", "set"}}
   \cup {[fam |-> "pool", kind |-> "socket", muts |-> q, next |-> "observe", expect |-> "fresh"] : q \in Seqs(SockMut, 3)}
   \cup {[fam |-> "pool", kind |-> "xferpipe", muts |-> q, next |-> "observe", expect |-> "fresh"] : q \in Seqs(PipeMut, 2)}
